@@ -7,6 +7,7 @@ void harness(void) {
   uint32_t addr = 0;
   _Bool ok = ref_ipv4(input, &addr);
   char ref[16]; size_t rn = ref_ipv4_serialize(addr, ref);
+#ifndef ONLY_AGG
   /* ada::url */
   struct url u = G_url_default;
   _Bool r1 = url_parse_ipv4(&u, input);
@@ -15,6 +16,8 @@ void harness(void) {
     __CPROVER_assert(u.host.has && ref_bytes_eq(u.host.v.d, u.host.v.n, ref, rn), "postcondition: url stores the dotted-decimal serialization of the Standard's address");
     __CPROVER_assert(u.base.host_type == 1 && u.base.is_valid, "postcondition: url marks the host as IPv4 and stays valid");
   } else __CPROVER_assert(!u.base.is_valid, "postcondition: url failure clears is_valid");
+#endif
+#ifndef ONLY_URL
   /* ada::url_aggregator (text handed to update_base_hostname is recorded by the abstract editor) */
   struct url_aggregator a = G_url_aggregator_default;
   g_host_written = 0;
@@ -24,5 +27,6 @@ void harness(void) {
     __CPROVER_assert(g_host_written == 1 && ref_bytes_eq(g_host.d, g_host.n, ref, rn), "postcondition: aggregator writes the dotted-decimal serialization of the Standard's address");
     __CPROVER_assert(a.base.host_type == 1 && a.base.is_valid, "postcondition: aggregator marks the host as IPv4 and stays valid");
   } else __CPROVER_assert(!a.base.is_valid, "postcondition: aggregator failure clears is_valid");
+#endif
   CANARY_POINT;
 }
